@@ -58,6 +58,17 @@ def run(chk, repo, tier):
     big = [p for p in raises if p.exc == 'ValueError' and any(
         pol and is_app(c.single_atom() or ('x',), 'lt') and 'amax(img)' in fmt(c) for c, pol, _ in p.conds if isinstance(c, Poly))]
     chk.ob('C18-b', 'D-refusal', f.key, 'negative signal -> ValueError', bool(neg), '', f.loc())
+    # every representable count survives: the draws are only ever cast to full-width types
+    narrow = []
+    WIDE = {"('builtin', 'int')", "('builtin', 'float')", "'int64'", "'float64'", "'uint64'", "'longlong'", "'int_'", "'float_'"}
+    _, sp, _ = analyse(repo, 'detector.shot_noise')
+    for p in returns(sp):
+        for a in nf.value_atoms(p.ret):
+            if is_app(a, ('cast', 'm:astype')) and len(a[2]) > 1 and isinstance(a[2][1], Const) and repr(a[2][1]) not in WIDE:
+                narrow.append(repr(a[2][1]))
+    chk.ob('C18-b', 'T-dtype', 'detector.shot_noise', 'counts are never cast to a narrower type than the platform integer / double',
+           not narrow, ('cast to ' + ', '.join(sorted(set(narrow))) + ': large counts wrap around') if narrow else 'full-width casts only',
+           repo.func('detector.shot_noise').loc())
     chk.ob('C18-b', 'D-refusal', f.key, 'unrepresentably large signal -> ValueError', bool(big), '', f.loc())
     f, paths, _ = analyse(repo, 'detector.shot_noise', config={'method': Const('gaussian')})
     okg, det = False, 'no normal draw'
@@ -131,6 +142,19 @@ def run(chk, repo, tier):
             oks = len(cr) == 1 and cr[0].bound.get('shape') == S('shape') and \
                 all(e == lps[0]['phi']['img'] + cr[0].result for e in ends)
     chk.ob('C18-f', 'R-shape', f.key, 'accumulates ray frames of the requested shape into zeros(shape)', okz and oks, '', f.loc())
+    # the ray is confined to the frame: rows 0..shape[0]-1, columns 0..shape[1]-1, one layer deep
+    fcr, cpaths, _ = analyse(repo, 'detector._cosmic_ray')
+    oke, dete, ne = True, '', 0
+    sh = S('shape')
+    want_ext = Tup([C(0), nf.index(sh, C(0)) - 1, C(0), nf.index(sh, C(1)) - 1, C(0), C(-1)])
+    for p in returns(cpaths):
+        for e in p.calls('detector._propagate_ray'):
+            ne += 1
+            ext = e.bound.get('extent')
+            if not (isinstance(ext, Tup) and len(ext) == 6 and Tup(list(ext.items)) == want_ext):
+                oke, dete = False, f'extent = {fmt(ext)[:120]}; expected {fmt(want_ext)}'
+    chk.ob('C18-f', 'R-shape', fcr.key, 'the ray is traced inside the frame: extent (0, rows-1, 0, cols-1, 0, -1)',
+           (oke and ne > 0) if (ne > 0 or not oke) else None, dete or f'{ne} call(s)', fcr.loc())
     f, paths, _ = analyse(repo, 'detector._cosmic_ray')
     okn, det = True, ''
     n = 0
